@@ -99,12 +99,15 @@ Once(w, t, tag) ==
 \* full/empty lock 1 built from mutex M1 and conditions C1 (status 0) / C2 (status 1):
 \* odd tags produce (wait for empty, mark full), even tags consume (wait for full, mark empty)
 Felock(w, t, tag) ==
-  LET prod == tag % 2 = 1
-      want == IF prod THEN 0 ELSE 1 IN
+  LET rd   == SCN = "felockr"                  \* readers scenario: tag 1 fills once, every other tag reads (waits for full, marks full again)
+      prod == IF rd THEN tag = 1 ELSE tag % 2 = 1
+      want == IF prod THEN 0 ELSE 1
+      mark == IF rd THEN 1 ELSE 1 - want
+      rounds == IF rd /\ prod THEN 1 ELSE K IN
   IF upc[tag].k = 0
-  THEN IF upc[tag].i < K THEN UFeWaitLockCall(w, tag, 1, want, M1, IF want = 0 THEN C1 ELSE C2) /\ Adv(tag, 1, 0) /\ UNCHANGED env
+  THEN IF upc[tag].i < rounds THEN UFeWaitLockCall(w, tag, 1, want, M1, IF want = 0 THEN C1 ELSE C2) /\ Adv(tag, 1, 0) /\ UNCHANGED env
        ELSE UBodyEnd(w, tag, 1000 + tag, 0) /\ Same
-  ELSE UFeMarkCall(w, tag, 1, 1 - want, M1, IF want = 0 THEN C2 ELSE C1) /\ Adv(tag, 0, 1) /\ UNCHANGED env
+  ELSE UFeMarkCall(w, tag, 1, mark, M1, IF mark = 0 THEN C1 ELSE C2) /\ Adv(tag, 0, 1) /\ UNCHANGED env
 
 \* thread-specific keys: every child makes K calls, each a key creation or the deletion of a key it created
 \* (env.held[tag] = keys the thread currently owns: updated when the call returns, see KeyRet)
@@ -137,7 +140,7 @@ Timed(w, t, tag) ==
 Scenario(w, t, tag) ==
   CASE SCN = "mutex" -> Mutex(w, t, tag) [] SCN = "cond" -> Cond(w, t, tag) [] SCN = "gate" -> Gate(w, t, tag)
     [] SCN = "barrier" -> Barrier(w, t, tag) [] SCN = "jc" -> Jc(w, t, tag) [] SCN = "uncond" -> Uncond(w, t, tag)
-    [] SCN = "once" -> Once(w, t, tag) [] SCN = "felock" -> Felock(w, t, tag) [] SCN = "keys" -> Keys(w, t, tag) [] SCN = "timed" -> Timed(w, t, tag)
+    [] SCN = "once" -> Once(w, t, tag) [] SCN \in {"felock", "felockr"} -> Felock(w, t, tag) [] SCN = "keys" -> Keys(w, t, tag) [] SCN = "timed" -> Timed(w, t, tag)
 
 UserStep(w) ==
   \E t \in D : At(w, t, "user") /\
@@ -226,13 +229,13 @@ KeysLib(w) ==
 LibStep(w) ==
   /\ Same
   /\ \/ CoreLib(w)
-     \/ SCN \in {"mutex", "cond", "gate", "felock"} /\ MutexLib(w)
-     \/ SCN \in {"cond", "gate", "felock"} /\ CondLib(w)
+     \/ SCN \in {"mutex", "cond", "gate", "felock", "felockr"} /\ MutexLib(w)
+     \/ SCN \in {"cond", "gate", "felock", "felockr"} /\ CondLib(w)
      \/ SCN = "barrier" /\ BarrierLib(w)
      \/ SCN = "jc" /\ JcLib(w)
      \/ SCN = "uncond" /\ UncondLib(w)
      \/ SCN = "once" /\ OnceLib(w)
-     \/ SCN = "felock" /\ FelockLib(w)
+     \/ SCN \in {"felock", "felockr"} /\ FelockLib(w)
      \/ SCN = "keys" /\ KeysLib(w)
      \/ SCN = "timed" /\ (TimedLib(w) \/ MutexLib(w))
 
